@@ -4,7 +4,8 @@
 (* SubmissionQueue::wake under the baton scheduler, recorded in their      *)
 (* exact global order, must be behaviours of WakeMT.  Logged events:       *)
 (*   PollCall, PollBegin(visible), SetPolling(on, previous state byte),    *)
-(*   PollerEnter (return of the blocking system call), PollReturn,         *)
+(*   PollerEnter (return of the blocking system call), Reload(visible),    *)
+(*   PollReturn,                                                           *)
 (*   RingDrop, WakeCall, Fetch(previous state byte), Queued, QueueFull,    *)
 (*   SentSync, WakerEnter, WakeReturn, KConsume, KFiller, Reset.           *)
 (* The previous values of the PollingState byte that the code observed     *)
@@ -31,6 +32,7 @@ TSetPolling ==
     /\ Rec[l].b = Byte
     /\ IF Rec[l].a = 1 THEN PAnnounce ELSE PClear
 TPollerEnter == IsEvent("PollerEnter") /\ PWake
+TReload == IsEvent("Reload") /\ ((Rec[l].a > 0) <=> (cq > 0)) /\ PReload
 TPollReturn == IsEvent("PollReturn") /\ PProcess
 TRingDrop == IsEvent("RingDrop") /\ PDrop
 
@@ -49,12 +51,12 @@ TReset ==
     /\ polling' = FALSE /\ awoken' = FALSE
     /\ ppc' = "start" /\ short' = FALSE /\ polls' = 0
     /\ wpc' = [w \in Wakers |-> "begin"] /\ wk' = [w \in Wakers |-> 1] /\ wok' = [w \in Wakers |-> FALSE]
-    /\ sq' = 0 /\ filler' = Fill /\ cq' = 0 /\ owed' = FALSE /\ dropped' = FALSE
+    /\ sq' = 0 /\ filler' = Fill /\ cq' = 0 /\ seen' = 0 /\ owed' = FALSE /\ dropped' = FALSE
     /\ late' = [w \in Wakers |-> FALSE]
     /\ stale' = [w \in Wakers |-> FALSE]
 
 TraceNext ==
-    \/ TPollCall \/ TPollBegin \/ TSetPolling \/ TPollerEnter \/ TPollReturn \/ TRingDrop
+    \/ TPollCall \/ TPollBegin \/ TSetPolling \/ TPollerEnter \/ TReload \/ TPollReturn \/ TRingDrop
     \/ TWakeCall \/ TFetch \/ TQueued \/ TQueueFull \/ TSentSync \/ TWakerEnter \/ TWakeReturn
     \/ TKConsume \/ TKFiller \/ TReset
     \/ (PEnter /\ UNCHANGED l)
